@@ -194,7 +194,7 @@ func newMiddlewareVia(cfg cors.Config, via int) (*cors.Middleware, error) {
 //	0 NewMiddleware(cfg), SetDebug(d)
 //	1 zero value, Reconfigure(cfg), SetDebug(d)
 //	2 NewMiddleware(other), SetDebug(d), Reconfigure(cfg)                       [debug retained]
-//	3 NewMiddleware(cfg), Reconfigure(nil), Reconfigure(cfg), SetDebug(d)
+//	3 NewMiddleware(cfg), [SetDebug(true),] Reconfigure(nil), Reconfigure(cfg), SetDebug(d) [omitted when d is false and debug was on before the nil]
 //	4 NewMiddleware(cfg), SetDebug(d), Reconfigure(cfg)                          [documented no-op reconfiguration]
 //	5 NewMiddleware(cfg), SetDebug(!d), Reconfigure(Config()), SetDebug(d)
 //	6 NewMiddleware(other), SetDebug(true), Reconfigure(cfg), SetDebug(false), SetDebug(d)
@@ -213,6 +213,9 @@ func newMiddlewareViaDbg(cfg cors.Config, via int, d bool) (*cors.Middleware, er
 	switch via % 8 {
 	case 1:
 		m := new(cors.Middleware)
+		if via%16 >= 8 {
+			wrappedOnce(m) // the handlers are wrapped while the middleware is still a passthrough one (lesson of seeded change C02-p)
+		}
 		c := cfg
 		if err := m.Reconfigure(&c); err != nil {
 			return nil, err
@@ -238,14 +241,22 @@ func newMiddlewareViaDbg(cfg cors.Config, via int, d bool) (*cors.Middleware, er
 		if err != nil {
 			return nil, err
 		}
+		if via%16 >= 8 {
+			m.SetDebug(true) // debug mode on, then passthrough (which switches it off for good), then configured again (lesson of seeded change C16-p)
+		}
 		if err := m.Reconfigure(nil); err != nil {
 			return nil, err
+		}
+		if via%32 >= 16 {
+			wrappedOnce(m)
 		}
 		c := cfg
 		if err := m.Reconfigure(&c); err != nil {
 			return nil, err
 		}
-		m.SetDebug(d)
+		if d || via%16 < 8 {
+			m.SetDebug(d) // otherwise debug mode is off already: turning the middleware into a passthrough one switched it off
+		}
 		return m, nil
 	case 4:
 		m, err := cors.NewMiddleware(cfg)
